@@ -3,6 +3,13 @@ unambiguous CommonMark, and the token tree the parser is expected to return (nor
 Used by C04 (structure recovery), C13 (Markdown renderer round trip)."""
 
 WORDS = ["alpha", "beta", "gamma", "delta", "foo", "bar", "baz", "lorem", "ipsum", "word", "zed", "qux"]
+# words around a character that str.splitlines() takes for a line end (CommonMark: only LF, CR LF and CR end a line)
+ODD_WORDS = ["se\u2028p", "fo\x0crm", "ne\x85l", "pa\u2029ra", "ve\x0bt", "fi\x1cle"]
+
+
+def _words(r, lo, hi):
+    return " ".join(r.choice(ODD_WORDS) if r.random() < 0.04 else r.choice(WORDS) for _ in range(r.randint(lo, hi)))
+
 
 
 # ---------------------------------------------------------------- generation
@@ -28,10 +35,10 @@ def gen_inlines(r, depth=0, plain=False, in_link=False, in_em=False, in_strong=F
             elif kind == "autolink" and not in_link:
                 out.append(("autolink", r.choice(["http://e.x/a", "https://e.x/?q=1", "mailto:a@b.co"])))
             else:
-                out.append(("text", " ".join(r.choice(WORDS) for _ in range(r.randint(1, 3)))))
+                out.append(("text", _words(r, 1, 3)))
             continue
         if plain is True or depth > 2 or k < 0.45:
-            out.append(("text", " ".join(r.choice(WORDS) for _ in range(r.randint(1, 3)))))
+            out.append(("text", _words(r, 1, 3)))
         elif k < 0.55 and not in_em:
             out.append(("em", gen_inlines(r, depth + 1, plain, in_link, True, in_strong, breaks)))
         elif k < 0.63 and not in_strong:
@@ -93,7 +100,9 @@ def gen_blocks(r, depth=0, plain=False, n=None, in_item=False):
         elif k < 0.46:
             b = ("heading", r.randint(1, 6), gen_inlines(r, 0, plain, breaks=False))
         elif k < 0.54:
-            body = "".join(r.choice(["code line\n", "  indented\n", "*not em*\n", "<b>&amp;\n", "\\n\n", "# no\n", "- no\n", "> no\n", "\n", "code  \n", "\n\n", "a\n\n\nb\n", "\n\n\n"])
+            body = "".join(r.choice(["code line\n", "  indented\n", "*not em*\n", "<b>&amp;\n", "\\n\n", "# no\n", "- no\n", "> no\n", "\n", "code  \n", "\n\n", "a\n\n\nb\n", "\n\n\n",
+                                      # characters that str.splitlines() takes for line ends and CommonMark does not
+                                      "a\u2028b\n", "x\x0cy\n", "v\x0bw\x85z\n", "f\x1cg\u2029h\x1e\n"])
                            for _ in range(r.choice([0, 1, 1, 2, 2, 3, 4])))     # (also an empty block; runs of blank lines inside the code)
             b = ("fenced", r.choice(["```", "~~~", "````"]), r.choice(["", "", "python", "c"]), body)
         elif k < 0.58:
